@@ -316,6 +316,32 @@ func (x *Exec) bigBytes(e *Env, v *Term) Value {
 	e.st.assume(Eq(be, v))
 	first := e.toIntTerm(Scalar{Select(arr, IntC(0)), byteT})
 	e.st.assume(Implies(Lt(IntC(0), ln), Ne(first, IntC(0))))
+	// when the value is known to fit K <= 72 bytes: the length and every byte, by position from the
+	// least significant end (all linear facts: the m-th byte from the end is (v div 256^m) mod 256 and the
+	// length is the c with 256^(c-1) <= v < 256^c)
+	if iv := e.termBounds(v, e.varBounds(), map[*Term]*ival{}, 0); iv != nil && iv.lo.Sign() >= 0 {
+		K := int64((iv.hi.BitLen() + 7) / 8)
+		if K <= 72 {
+			e.st.assume(Le(ln, IntC(K)))
+			p := big.NewInt(1)
+			for c := int64(0); c <= K; c++ {
+				// ln == c  <=>  256^(c-1) <= v < 256^c   (c = 0: v = 0)
+				hi := new(big.Int).Set(p)
+				if c == 0 {
+					e.st.assume(Eq(Eq(ln, IntC(0)), Lt(v, IntB(hi))))
+				} else {
+					lo := new(big.Int).Rsh(p, 8)
+					e.st.assume(Eq(Eq(ln, IntC(c)), And(Le(IntB(lo), v), Lt(v, IntB(hi)))))
+				}
+				p = new(big.Int).Lsh(p, 8)
+			}
+			for m := int64(0); m < K; m++ {
+				d := EMod(EDiv(v, IntB(new(big.Int).Lsh(big.NewInt(1), uint(8*m)))), IntC(256))
+				bt := e.toIntTerm(Scalar{Select(arr, Sub(Sub(ln, IntC(1)), IntC(m))), byteT})
+				e.st.assume(Implies(Lt(IntC(m), ln), Eq(bt, d)))
+			}
+		}
+	}
 	return s
 }
 
